@@ -76,3 +76,27 @@ Definition sync_ok (t : list sync_row) (names : list (list N)) : bool :=
 Definition sync_methods : list (list N) :=
   map s2l ["call"; "read_coils"; "read_discrete_inputs"; "read_input_registers"; "read_holding_registers"; "read_write_multiple_registers";
            "write_single_register"; "write_multiple_registers"; "write_single_coil"; "write_multiple_coils"; "masked_write_register"].
+
+(* ---- Client::call (service/tcp.rs and service/rtu.rs have the same one) as the sequence of its statements ---- *)
+Inductive ctok := KFc | KAdu | KHdr | KFramed | KClear | KSend | KNext | KSplit | KSplit2 | KVerifyHdr | KFcOf | KVerifyFc | KMapExc.
+Definition ctok_eqb (a b : ctok) : bool :=
+  match a, b with
+  | KFc, KFc | KAdu, KAdu | KHdr, KHdr | KFramed, KFramed | KClear, KClear | KSend, KSend | KNext, KNext | KSplit, KSplit
+  | KSplit2, KSplit2 | KVerifyHdr, KVerifyHdr | KFcOf, KFcOf | KVerifyFc, KVerifyFc | KMapExc, KMapExc => true
+  | _, _ => false
+  end.
+(* the statements that do something (take the id, check the connection, clear, send, receive, verify, map) in order; the pure `let`s
+   between them may move *)
+Definition effectful (t : ctok) : bool := match t with KFc | KHdr | KSplit | KSplit2 | KFcOf => false | _ => true end.
+Definition call_order (p : list ctok) : list ctok := filter effectful p.
+Definition call_prog_model : list ctok :=
+  [KFc; KAdu; KHdr; KFramed; KClear; KSend; KNext; KSplit; KSplit2; KVerifyHdr; KFcOf; KVerifyFc; KMapExc].
+(* what the model's [call] does, in this vocabulary: the transaction id is taken BEFORE the connection check (KAdu before KFramed), the
+   receive buffer is cleared after the connection check and before the send, one send, one receive (an error consumes the framing
+   layer's end-of-stream marker; no item = BrokenPipe; not connected = NotConnected), the header is verified before the function code,
+   the exception is mapped last *)
+Definition call_order_model : list ctok := [KAdu; KFramed; KClear; KSend; KNext; KVerifyHdr; KVerifyFc; KMapExc].
+Definition call_shape_ok (g : list ctok * (list N * list N)) : bool :=
+  list_eqb ctok_eqb (call_order (fst g)) call_order_model
+  && forallb (fun t => Nat.eqb (length (filter (ctok_eqb t) (fst g))) 1) [KFc; KHdr; KSplit; KSplit2; KFcOf]
+  && leqb (fst (snd g)) (s2l "BrokenPipe") && leqb (snd (snd g)) (s2l "NotConnected").
